@@ -249,7 +249,7 @@ func runC09(c *core.Ctx) {
 	n := c.Pick(500, 4000)
 	c.RunHistories(n, Registry["C09"].Mons, func(w *core.World) {
 		wts := map[string]int{
-			"edit-new": 8, "edit-copy": 2, "edit-copydir": 1, "edit-mod": 11, "edit-mod-samesize": 4, "edit-rm": 10, "edit-rmdir": 6,
+			"edit-twin-file": 4, "edit-mod-old": 3, "edit-new": 8, "edit-copy": 2, "edit-copydir": 1, "edit-mod": 11, "edit-mod-samesize": 4, "edit-rm": 10, "edit-rmdir": 6,
 			"add": 12, "rm": 4, "commit": 5, "commit-all": 1,
 			"restore": 22, "restore-staged": 22, "reset": 2,
 		}
